@@ -61,6 +61,11 @@ def jobs(tier):
                      defines={"VC_N": n, "VC_NY": ny, "VC_NLV": nlv, "VC_REQ": req}, unwind=max(n, ny, nlv) + 4, functions=["PLSYPredictor"], cbmc_flags=["--slice-formula"], timeout=900,
                      bound="%d objects, %d responses, %d score columns / %d requested" % (n, ny, nlv, req),
                      clause="PLSYPredictor: output shape, latent-variable clamp, in-bounds (enforce-run of the shape part of its stub contract)"))
+    for (n, ny, nlv, req, scaled) in ([(2, 2, 2, 1, 1), (1, 2, 2, 3, 1), (2, 1, 2, 2, 0)] if tier == "quick" else [(2, 2, 2, 1, 1), (1, 2, 2, 3, 1), (2, 1, 2, 2, 0), (2, 2, 2, 2, 1), (2, 2, 3, 2, 0)]):
+        J.append(Job("PLSYPredictor_values@n=%d,ny=%d,nlv=%d,req=%d,scaled=%d" % (n, ny, nlv, req, scaled), "C03/scorepred.c", entry="h_PLSYPredictor_values", srcs=SP, kind="bounded",
+                     defines={"VC_N": n, "VC_NY": ny, "VC_NLV": nlv, "VC_REQ": req, "VC_SCALED": scaled}, unwind=max(n, ny, nlv) + 4, functions=["PLSYPredictor"], timeout=900,
+                     bound="%d objects, %d responses, %d score columns / %d requested; cells symbolic in {0,1,2,3} (IEEE, exact instances)" % (n, ny, nlv, req),
+                     clause="PLSYPredictor: prediction = (sum over the latent variables used of b*score*yloading) * stored y scaling + stored y average (exact instances: independent of the evaluation order)"))
     if tier == "thorough":
         for (n, xc, ny, nlv) in [(3, 3, 2, 3), (2, 3, 3, 3), (3, 2, 3, 2)]:
             J.append(pls_job(n, xc, ny, nlv, True, "thorough", "A"))
